@@ -341,3 +341,24 @@ def _(self: "MemoryAccess", priority: "int", pgn: "int", sa: "int", timestamp: "
             and is_dm15_call(trace[-1], self.server, 8, bits(data[1], 4, 4), DM15_OPERATION_FAILED, ResponseState.SEND_ERROR, data[0], sa)))
     # a request while the application still owes the answer to the previous one (WAIT_RESPONSE) is not looked at
     ensures("C19.facade.wait_response", implies(pgn == PGN_DM14 and st0 == DMState.WAIT_RESPONSE, len(trace) == n0 and unchanged(self.state)))
+
+
+# ------------------------------------------------------------------ client: DM15 handling (errors surfaced)
+
+@unit("j1939.Dm14Query:Dm14Query._parse_dm15", variant="error", props=["C18"])
+def _(self: "Dm14Query", priority: "int", pgn: "int", sa: "int", timestamp: "real", data: "octets"):
+    requires(octets(data), len(data) == 8, 0 <= sa <= 255, no_alias(self.data_queue, self.exception_queue),
+             # this variant: foreign frames and error / busy responses
+             pgn != PGN_DM15 or sa != self._dest_address or bits(data[1], 1, 3) == DM15_BUSY or bits(data[1], 1, 3) == DM15_OPERATION_FAILED)
+    let("n0", len(trace))
+    let("mine", pgn == PGN_DM15 and sa == self._dest_address)
+    let("q0", old(len(self.data_queue)))
+    let("e0", old(len(self.exception_queue)))
+    ensures("C18.dm15.foreign", implies(not mine, len(trace) == n0 and len(self.data_queue) == q0 and len(self.exception_queue) == e0
+                                        and unchanged(self.state)))
+    # an error / busy response ends the blocking wait of read()/write() (None in the data queue) and, when it carries an error
+    # indicator (EDCP extension 6 or 7), queues exactly one exception for the caller
+    ensures("C18.dm15.error_surfaced", implies(mine,
+            len(self.data_queue) == q0 + 1 and is_none(self.data_queue[-1])
+            and len(self.exception_queue) == e0 + ite(data[5] == 6 or data[5] == 7, 1, 0)
+            and len(trace) == n0))
